@@ -192,6 +192,10 @@ def ladder_configs(quick: bool) -> list[dict]:
         for nx, nt in rungs:
             out.append({"kind": kind, "table": tab, "nx": nx, "pf": pf, "pi": pi, "grid": "quadratic", "nt": nt,
                         "tend": 4.0, "sched": sched, "seed": 7 + fi, "ladder": fi, "ladder_nx": nx})
+    # an ideal reservoir object that was built and used with another pressure pair before the pair was assigned
+    for nx, nt in rungs[:3]:
+        out.append({"kind": "ideal", "table": "pvt_gas", "nx": nx, "pf": 2000.0, "pi": 8000.0, "grid": "quadratic", "nt": nt,
+                    "tend": 4.0, "sched": "none", "seed": 99, "ladder": 200, "ladder_nx": nx, "repress": (6000.0, 9000.0)})
     # space-only refinement on a fixed fine time grid with a schedule that changes: a one-sample error at every change of
     # the schedule is not hidden by refining time as nx^2
     for fj, (tab, pf, pi, sched) in enumerate([("synth_z:0.0002", 6000.0, 8000.0, "stepdown"),
